@@ -330,6 +330,93 @@ def h_entries():
     return ['entries', omit]
 
 
+def h_shared():
+    """TWO connections with different endpoints whose `protect` is ONE shared object (what a YAML anchor/alias gives: `protect: &p [...]` /
+    `protect: *p`), the shared entry omitting an arbitrary key (or all / none); sharing is at the list or at the entry level.  Each connection
+    is loaded exactly as if it stood alone with its own copy of the entry (differential with the loader itself), and loading leaves the
+    caller's dictionary as it was (a loader that writes defaults back into it makes the first connection's values the second one's)"""
+    import copy
+    from symx import core
+    from ipaddress import ip_address
+    eng = core.engine()
+    cf = MODS['configuration']
+    omit = choose(eng, 'omitted', ['<none>', '<all>'] + sorted(E2))
+    level = choose(eng, 'shared_at', ['list', 'entry', 'auth_and_algs'])
+    first = choose(eng, 'first_connection', ['conn1', 'conn2'])
+    e2 = {} if omit == '<all>' else {k: v for k, v in E2.items() if k != omit}
+
+    def conn(n):
+        c = copy.deepcopy(base_dict()['conn1'])
+        c['my_addr'], c['peer_addr'] = ('192.0.2.1', '192.0.2.2') if n == 1 else ('192.0.2.11', '192.0.2.12')
+        c['peer_auth']['id'] = f'bob{n}@example.org'
+        return c
+    shared_entry = copy.deepcopy(e2)
+    shared_list = [shared_entry]
+    c1, c2 = conn(1), conn(2)
+    if level == 'list':
+        c1['protect'] = c2['protect'] = shared_list
+    elif level == 'entry':
+        c1['protect'], c2['protect'] = [shared_entry], [shared_entry]
+    else:
+        c1['protect'], c2['protect'] = [copy.deepcopy(e2)], [copy.deepcopy(e2)]
+        for k in ('my_auth', 'encr', 'integ', 'prf', 'dh'):
+            c2[k] = c1[k]
+        if omit in c1:
+            pass
+    names = ['conn1', 'conn2'] if first == 'conn1' else ['conn2', 'conn1']
+    both = {nm: (c1 if nm == 'conn1' else c2) for nm in names}
+    before = copy.deepcopy(both)
+    listening = [ip_address('192.0.2.1'), ip_address('192.0.2.11')]
+    try:
+        cb = cf.Configuration(listening, both)
+        alone = {}
+        for i, nm in ((1, 'conn1'), (2, 'conn2')):
+            d = conn(i)
+            d['protect'] = [copy.deepcopy(e2)]
+            alone[nm] = cf.Configuration(listening, {nm: d})
+    except Exception as ex:      # noqa
+        return {'class': ['shared'], 'violation': f'shared protect ({level}) omitting {omit}: loading failed with {type(ex).__name__}: {ex}'}
+    if both != before:
+        diff = [f'{nm}.protect[0].{k}' for nm in both for k in (set(both[nm]['protect'][0]) ^ set(before[nm]['protect'][0]))] or ['(values)']
+        return {'class': ['shared'], 'violation': f'loading changed the dictionary it was given ({", ".join(sorted(set(diff)))}): with a shared '
+                                                  f'(aliased) protect object the value written for one connection becomes the other one\'s'}
+
+    def flat(ic):
+        out = []
+        for f in ic._fields:
+            v = getattr(ic, f)
+            if f == 'protect':
+                for e in v:
+                    for g in e._fields:
+                        w = getattr(e, g)
+                        out.append((f'protect.{g}', ([(int(t.type), int(t.id), t.keylen) for t in w.transforms], int(w.protocol_id)) if g == 'proposal' else w))
+            elif f == 'proposal':
+                out.append((f, ([(int(t.type), int(t.id), t.keylen) for t in v.transforms], int(v.protocol_id))))
+            else:
+                out.append((f, norm(v)))
+        return out
+
+    def norm(v):
+        if type(v).__name__ == 'PayloadID':
+            return ('ID', int(v.id_type), bytes(v.id_data))
+        if hasattr(v, '_fields'):
+            return tuple(norm(getattr(v, g)) for g in v._fields)
+        return v
+    for nm in ('conn1', 'conn2'):
+        peer = (ip_address(both[nm]['my_addr']), ip_address(both[nm]['peer_addr']))
+        a = cb.ike_configurations.get(peer)
+        b = alone[nm].ike_configurations.get(peer)
+        if a is None or b is None:
+            return {'class': ['shared'], 'violation': f'{nm} is not loaded under its peer address {peer}'}
+        for (fa, x), (fb, y) in zip(flat(a), flat(b)):
+            if fa == 'protect.index' and 'index' not in e2:
+                continue
+            if fa != fb or not (x == y):
+                return {'class': ['shared'], 'violation': f'{nm} shares its protect object ({level}, omitting {omit}) with another connection and is loaded with '
+                                                          f'{fa} = {x}, but with {y} when it stands alone (a value of the other connection leaks into it)'}
+    return ['shared', level, omit]
+
+
 ORDER_LISTS = {'encr': (['aes256', 'aes128'], ['aes128', 'aes256'], ['aes128', 'aes128'], ['aes128']),
                'integ': (['sha512', 'sha1'], ['sha1', 'sha512'], ['sha1', 'sha1', 'sha512']),
                'dh': (['ecp256', 'modp2048'], ['modp2048', 'ecp256'], ['ecp256'])}
@@ -449,6 +536,8 @@ def build_instances(tier):
     inst.append(Instance('two algorithm lists of one kind in different order', h_orders, (), native=nat(h_orders), engine_kw={'max_ticks': 10 ** 7},
                          must_reach=[('loaded', lambda o: o == ['orders', 'loaded'])]))
     inst.append(Instance('second protect entry omitting keys', h_entries, (), native=nat(h_entries), engine_kw={'max_ticks': 10 ** 7}))
+    inst.append(Instance('two connections sharing one protect object (YAML alias)', h_shared, (), native=nat(h_shared), engine_kw={'max_ticks': 10 ** 7},
+                         must_reach=[('loaded', lambda o: o[0] == 'shared')]))
     inst.append(Instance('host names, resolver answers and listening sets', h_resolve, (), native=nat(h_resolve), engine_kw={'max_ticks': 10 ** 7},
                          must_reach=[('rejected', lambda o: o == ['resolve', 'ConfigurationError']), ('loaded', lambda o: o == ['resolve', 'loaded'])]))
     for v in ('ike_algs', 'ike_id', 'ipsec_algs', 'ipsec_misc'):
